@@ -4,6 +4,7 @@
 use serde_json::{json, Value};
 use std::panic;
 
+mod c03;
 mod c08;
 mod c12;
 mod c16;
@@ -23,6 +24,7 @@ fn rerun(w: &Value) -> Option<Outcome> {
         "c19_span" => Some(c19::run_span(w["input"]["text"].as_str()?, w["input"]["start"].as_u64()? as usize, w["input"]["end"].as_u64()? as usize)),
         "c12_header" => Some(c12::run_header(w["input"]["text"].as_str()?)),
         "c20_u8" => Some(c20::run_u8(w["input"]["kind"].as_str()?, w["input"]["n"].as_u64()? as usize)),
+        "c03_expect" => Some(c03::run(w["input"]["body"].as_str()?, w["input"]["expect"].as_u64().map(|x| x as usize), w["input"]["expectrr"].as_u64().map(|x| x as usize))),
         "c08_span" => Some(c08::run(w["input"]["grammar"].as_str()?, w["input"]["input"].as_str()?)),
         "c17_sets" => Some(c17::run(w["input"]["grammar"].as_str()?, w["input"]["what"].as_str()?)),
         "c16_table" => Some(c16::run(w["input"]["grammar"].as_str()?)),
@@ -36,6 +38,7 @@ fn search(unit: &str, tag: &str, tier: &str) -> Option<Value> {
         "c19_queries" => c19::search(tag, tier),
         "c12_header" => c12::search(tag, tier),
         "c08_reduce" => c08::search(tag, tier),
+        "c03_expect" => c03::search(tag, tier),
         "c17_firsts" | "c17_follows" | "c17_haspath" => c17::search(unit, tag, tier),
         "c16_new" | "c16_codec" => c16::search(tag, tier),
         "c20_grammar" => c20::search(tag, tier),
